@@ -236,9 +236,10 @@ fn run_one(id: &str, views: u32, s: &Script) -> CaseResult {
         // one script in eight injects a panic into the payload's Clone (make_mut)
         cfg.clone_panics = match (s.layout_seed >> 8) & 15 { 0 => 1, 1 => 2, _ => 0 };
         // re-entrant Clone (not together with armed destructor panics: C11)
-        cfg.clone_reentrant = (s.layout_seed >> 14) & 3 == 0 && cfg_id != "C11";
+        cfg.clone_reentrant = (s.layout_seed >> 14) & 1 == 0 && cfg_id != "C11";
         cfg.default_ctor = match (s.layout_seed >> 16) & 7 { 0 => 2, 1 | 2 | 3 => 1, _ => 0 };
-        crate::exec::set_trace_logging(s.layout_seed & 2 == 2);
+        // no logger in half of the cases, else a sink at a level picked by the script
+        crate::exec::set_log_level_sel(if s.layout_seed & 2 == 2 { 1 + ((s.layout_seed >> 21) % 7) as u8 } else { 0 });
         interp::run_script(s, cfg);
     })
 }
